@@ -26,11 +26,14 @@ from engine.framework import Check, Violation, Inconclusive
 
 
 def enc_entries(W, shape, tag):
-    """encryption-side list: shape per slot in {absent, value}"""
+    """encryption-side list: shape per slot in {absent, value, marked}.  `marked` = a value whose entry also carries the omitFromKeys marker: the marker
+    concerns key derivation only; precompute, adjust_precomputed, encrypt, sign and verify use the value all the same (and must do so consistently)"""
     ent = []
     for i, s in enumerate(shape):
         if s == "value":
             ent.append((i, W.G.ivar("%s%d" % (tag, i))))
+        elif s == "marked":
+            ent.append((i, W.G.ivar("%s%d" % (tag, i)), True))
     return ent
 
 
@@ -43,11 +46,11 @@ def ob_adjust_precomputed(l, fshape, tshape):
 
     def once():
         pre = Obj("precomputed", 144, "arg", 16)
-        W.I.store_cell(pre, 0, 144, GE("G1", W.attr_product(dict(fe))))
+        W.I.store_cell(pre, 0, 144, GE("G1", W.attr_product({e[0]: e[1] for e in fe})))
         W.I.call_named(fname, [Ptr(pre, 0), Ptr(W.params_obj(), 0), Ptr(W.attrlist_obj(fe, False, "from"), 0), Ptr(W.attrlist_obj(te, False, "to"), 0)])
         return W.M.read(Ptr(pre, 0), "G1").p
     res = run_paths(W, once)
-    want = W.attr_product(dict(te))
+    want = W.attr_product({e[0]: e[1] for e in te})
     for path, got in res:
         ok, mono, mdl = W.G.equal(got, want, path.pc)
         if not ok:
@@ -67,7 +70,7 @@ def ob_precompute(l, shape):
         return W.M.read(Ptr(pre, 0), "G1").p
     res = run_paths(W, once)
     for path, got in res:
-        ok, mono, mdl = W.G.equal(got, W.attr_product(dict(ent)), path.pc)
+        ok, mono, mdl = W.G.equal(got, W.attr_product({e[0]: e[1] for e in ent}), path.pc)
         if not ok:
             raise Violation("precompute:%s" % ",".join(shape), "precompute(%s) is not g3 * prod h_i^id_i (monomial %s)" % (shape, mono), {"l": l, "list": list(shape)})
     return stats(W, len(res), [W.prog.demangled[fname][:100]])
@@ -208,6 +211,14 @@ def register(chk):
     maxl = 3 if chk.tier == "quick" else 4
     for l in range(0, maxl + 1):
         shapes = list(itertools.product(("absent", "value"), repeat=l))
+        # lists with a marked entry: all of them up to l = 2, one marked slot beyond
+        marked = [sh for sh in itertools.product(("absent", "value", "marked"), repeat=l) if "marked" in sh and (l <= 2 or sum(x == "marked" for x in sh) == 1)]
+        for s in marked:
+            chk.add("precompute:l=%d:%s" % (l, ",".join(s)), ob_precompute, l, s)
+            for t in (shapes + marked if l <= 2 else shapes):
+                chk.add("adjust_precomputed:l=%d:from=%s:to=%s" % (l, ",".join(s), ",".join(t) or "-"), ob_adjust_precomputed, l, s, t)
+                if t not in marked:
+                    chk.add("adjust_precomputed:l=%d:from=%s:to=%s" % (l, ",".join(t) or "-", ",".join(s)), ob_adjust_precomputed, l, t, s)
         for s in shapes:
             chk.add("precompute:l=%d:%s" % (l, ",".join(s) or "-"), ob_precompute, l, s)
             for t in shapes:
@@ -246,10 +257,13 @@ def main(argv=None):
                   "every ordered pair of documented list shapes over l <= 2 (quick) / 3 (thorough) slots; ids symbolic in [0,2^256)",
                   "chains of adjustments are covered because each adjustment is shown to land exactly on the from-scratch value",
                   "hidden list entries carry id 0 (as the Go bindings produce them)"]
-    chk.trusted = ["group layer specification (C05-C08, C01)", "C11: nondelegable_qualifykey(parent, from) is the well-formed key for the accumulated pattern", "z3"]
+    chk.trusted = ["group layer specification (C05-C08, C01)", "z3"]
     # lower layers whose specifications this check relies on: their obligations are part of this check's claim (framework.Check.include)
     for dep in ['C06', 'C02', 'C03', 'C04', 'C05', 'C07', 'C01', 'C08', 'C10', 'C19']:
         chk.include(dep)
+    # the statements start from an arbitrary well-formed key; that the key-producing operations return exactly such keys (the induction step
+    # over delegation histories) is C11's claim, and part of this one
+    chk.include("C11", only=r"^(keygen|nondelegable_keygen|resamplekey|qualifykey|nondelegable_qualifykey):")
     chk.run()
     chk.finish()
 
